@@ -1,4 +1,5 @@
 mod mgr;
+mod appmsg;
 mod leak;
 mod atrest;
 mod conc;
@@ -16,6 +17,7 @@ fn main() {
         Some("world") => world::main(&args[2..]),
         Some("invite") => invite::main(&args[2..]),
         Some("leak") => leak::main(&args[2..]),
+        Some("appmsg") => appmsg::main(&args[2..]),
         Some("atrest") => atrest::main(&args[2..]),
         Some("conc") => conc::main(&args[2..]),
         Some("crash") => crash::main(&args[2..]),
